@@ -2,9 +2,7 @@
    second sort + reslice) and IPTable.Search.
    Addresses are the 16-byte form read as big-endian numbers in [0, 2^128); bytes.Compare on two 16-byte
    slices is numeric comparison.  sort.Sort is a parameter (any function returning a permutation sorted
-   w.r.t. the non-strict Less of ipPairs); go_insertion_sort is what sort.Sort does for < 12 elements.
-   The i/j/k index loops of mergeItems/checkMerge are written as a list zipper: [cur] is items[i],
-   [passed] holds items[i+1 .. j-1], [rest] is items[j ..]. *)
+   w.r.t. the non-strict Less of ipPairs); go_insertion_sort is what sort.Sort does for <= 12 elements. *)
 From Coq Require Import List ZArith Bool.
 Import ListNotations.
 Open Scope Z_scope.
@@ -46,49 +44,29 @@ Fixpoint insert_left (x : rng) (acc : list rng) : list rng :=
 Definition go_insertion_sort (l : list rng) : list rng :=
   rev (fold_left (fun acc x => insert_left x acc) l []).
 
-(* ---- mergeItems / checkMerge ---- *)
-(* endIP.Equal(net.IPv6zero) || endIP.Equal(net.IPv4zero) *)
-Definition is_zero (a : Z) : bool := (a =? 0) || (a =? Z4).
-
-(* "Merge items [i+1, j)": every entry whose endIP is not a zero address becomes a tombstone and is counted *)
-Fixpoint kill_between (p : list rng) : list rng * Z :=
-  match p with
-  | [] => ([], 0)
-  | k :: r => let '(r', c) := kill_between r in
-              if is_zero (snd k) then (k :: r', c) else (tomb :: r', c + 1)
+(* ---- mergeItems (after the repair, /repo commit db8c170) ----
+   items[0:num] is a stack of merged items (sorted by descending start, pairwise disjoint); here the stack is
+   a list with items[num-1] first.  For every items[j] in order:
+     for num > 0 && cur.endIP >= items[num-1].startIP { if items[num-1].endIP > cur.endIP {cur.endIP = ...}; num-- }
+     items[num] = cur; num++ *)
+Fixpoint push (cur : rng) (st : list rng) {struct st} : list rng :=
+  match st with
+  | top :: r =>
+    if fst top <=? snd cur
+    then push (fst cur, if snd cur <? snd top then snd top else snd cur) r
+    else cur :: st
+  | [] => [cur]
   end.
+Definition merge_stack (l : list rng) : list rng := fold_left (fun st x => push x st) l [].
+(* the array after mergeItems (merged items first, unused lines = zero addresses last) and mergedNum *)
+Definition merge_items (l : list rng) : list rng * Z :=
+  let st := merge_stack l in
+  (rev st ++ repeat tomb (length l - length st), Z.of_nat (length l) - Z.of_nat (length st)).
 
-(* inner loop of mergeItems for fixed i: j runs over rest; passed = items[i+1 .. j-1] *)
-Fixpoint inner (cur : rng) (passed : list rng) (rest : list rng) (cnt : Z) {struct rest}
-  : rng * list rng * Z :=
-  match rest with
-  | [] => (cur, passed, cnt)
-  | x :: rest' =>
-    (* note: the code tests items[j].endIP against IPv6zero only, and items[i].endIP against IPv4zero *)
-    if (snd x =? 0) || (snd cur =? Z4) then inner cur (passed ++ [x]) rest' cnt
-    else if fst cur <=? snd x then              (* checkMerge: items[j].endIP >= items[i].startIP *)
-      let cur' := (fst x, if snd cur <=? snd x then snd x else snd cur) in
-      let '(passed', c) := kill_between passed in
-      inner cur' (passed' ++ [tomb]) rest' (cnt + 1 + c)
-    else inner cur (passed ++ [x]) rest' cnt
-  end.
-
-(* outer loop: i runs over the list; fuel = length *)
-Fixpoint outer (fuel : nat) (l : list rng) (cnt : Z) {struct fuel} : list rng * Z :=
-  match fuel, l with
-  | S f, cur :: rest =>
-    if is_zero (snd cur) then let '(r, c) := outer f rest cnt in (cur :: r, c)
-    else let '(cur', rest', c1) := inner cur [] rest 0 in
-         let '(r, c) := outer f rest' (cnt + c1) in (cur' :: r, c)
-  | _, _ => (l, cnt)
-  end.
-Definition merge_items (l : list rng) : list rng * Z := outer (length l) l 0.
-
-(* IPItems.Sort: sort, merge, sort, reslice [0 : len - mergedNum] *)
-Definition build2 (s1 s2 : list rng -> list rng) (items : list rng) : list rng :=
-  let '(m, cnt) := merge_items (s1 items) in
-  firstn (Z.to_nat (Z.of_nat (length items) - cnt)) (s2 m).
-Definition build (sorter : list rng -> list rng) := build2 sorter sorter.
+(* IPItems.Sort: sort, merge, reslice [0 : len - mergedNum] *)
+Definition build (sorter : list rng -> list rng) (items : list rng) : list rng :=
+  let '(m, cnt) := merge_items (sorter items) in
+  firstn (Z.to_nat (Z.of_nat (length items) - cnt)) m.
 
 (* ---- IPTable.Search on the pair array ----
    sort.Search(n, i => items[i].startIP <= ip) is modelled by its contract: the first index whose start is
@@ -110,12 +88,7 @@ Definition spec (singles : list Z) (items : list rng) (ip : Z) : bool :=
   existsb (Z.eqb ip) singles || existsb (in_rng ip) items.
 
 (* what the loader guarantees for every accepted pair *)
-Definition wf_rng (r : rng) : bool := (0 <=? fst r) && (fst r <=? snd r).
-(* known-finding guard: no range starts at :: and no range is the single pair 0.0.0.0-0.0.0.0 *)
-Definition no_v6zero_start (items : list rng) : bool := forallb (fun r => negb (fst r =? 0)) items.
-Definition no_v4zero_end (items : list rng) : bool := forallb (fun r => negb (snd r =? Z4)) items.
-Definition no_zero_sentinel (items : list rng) : bool :=
-  (length items <=? 1)%nat || (no_v6zero_start items && no_v4zero_end items).
+Definition wf_rng (r : rng) : bool := fst r <=? snd r.
 
 (* ---- executable validity of a sorter outcome (used by the trace validation in RunC19) ---- *)
 Fixpoint sorted_desc (l : list rng) : bool :=
@@ -137,7 +110,8 @@ Fixpoint perm_b (a b : list rng) : bool :=
   end.
 Definition sorter_outcome_ok (inp out : list rng) : bool := perm_b out inp && sorted_desc out.
 
-Example witness_refuted :
+(* the two witnesses of the defects repaired by db8c170 now come out right *)
+Example witness_v6zero_fixed :
   let w := [(0, 5); (0, 9)] in
-  (build go_insertion_sort w, search (build go_insertion_sort w) 3, spec [] w 3) = ([(0, 0)], false, true).
+  (build go_insertion_sort w, search (build go_insertion_sort w) 3, spec [] w 3) = ([(0, 9)], true, true).
 Proof. reflexivity. Qed.
